@@ -91,6 +91,20 @@ CHECKS = {
         "DuckDB's binder is the independent judge of name resolution; bare columns are only generated when exactly one source of the query owns the name, so ambiguity arises only from the targeted shapes.",
         "DESIGN.md §C10",
     ),
+    "C16": (
+        "bounded-exhaustive enumeration (every depth-1 operator/function/cast/aggregate/window x column-type combination) + property-based testing (Hypothesis nesting to depth 4) with a differential oracle: DuckDB typeof() class vs annotate_types class",
+        "All ~10k depth-1 expressions over ten column types are enumerated on every run, and nested expressions are drawn at random; each expression DuckDB accepts is typed by DuckDB and by annotate_types(dialect='duckdb') and the type classes must agree. "
+        "Disagreements are attributed to the deepest disagreeing node; the finite table of known (node class, inferred, engine) cells is listed in known_findings.json, an UNKNOWN ceiling guards against vacuous agreement, and the SQL must not change through annotation.",
+        "DuckDB's typeof() is the reference. Cells outside the catalogue are violations at a rate >= 2e-4 of the run (>= 3 hits); the catalogue also lists the DuckDB generator's type-aware rewrites that make SQL differ after annotation.",
+        "DESIGN.md §C16",
+    ),
+    "C19": (
+        "schedule fuzzing: Hypothesis-generated schedule cases (thread counts, per-thread first-use orders over all dialects, switch interval, sys.settrace delay injection inside the first-use functions) run in fresh interpreters, differential oracle against a sequential baseline process",
+        "Every case is a cold interpreter in which 2-16 threads each touch every dialect (lookup, lazy attribute, tokenize, parse, transpile, optimize) in a generated order, free-running with a 1 microsecond switch interval and/or with generated sleeps at line events inside the lazy-loading and first-use functions. "
+        "All results must equal the sequential baseline from a separate process, no thread may die or leak an internal exception, and every sqlglot module body runs once. Evidence reports how many cases had >=2 threads inside a first-use function at once.",
+        "Samples interleavings; it cannot enumerate them. A race outside the traced functions with a window narrower than those found (three were found and repaired) can be missed; reproduction of a failing schedule is probabilistic (replay reruns it).",
+        "DESIGN.md §C19",
+    ),
     "C17": (
         "property-based testing (Hypothesis relation programs with by-construction provenance, rendered as derived tables / CTEs / sources= and with permuted aliases) with an exact-set oracle on lineage leaves",
         "For every output column of every generated program the set of (table, column) leaves of lineage() must equal the provenance recorded while the query was built, in all three presentations, under alias permutation, and through lineage(None) with its shared cache.",
